@@ -57,7 +57,7 @@ def judge(run, rec, pid="C01"):
     nt = nontrivial_src(src)
     dom = rec.get("domain", "")
     run.count("theorem-domain:" + ("ScalarCore" if "scalarcore=yes" in dom else "StorageCore" if "storagecore=yes" in dom else "outside (correspondence only)"))
-    if "scalarcore=yes" in dom: run.count("theorem-domain:optimised (NoShadow %s)" % ("holds" if "noshadow=yes" in dom else "fails"))
+    if "storagecore=yes" in dom: run.count("theorem-domain:optimised compile (NoShadow %s)" % ("holds" if "noshadow=yes" in dom else "fails"))
     for j, r in enumerate(ref):
         inp = dict(base_inp, input_index=j, input=rec["inputs"][j])
         if r[0] == "ood":
